@@ -624,15 +624,16 @@ class Run:
             if len(want) > 100:
                 self.count("probe:more-than-100-isotherms-retrieved")
             for c in vals:
-                ks = by_loose.get(c["loose"])
-                if not ks:
-                    self.fail("retrieved-differs", f"op={opdesc} where={where} " + self._iso_diff_sig(c, want),
-                              {"got_id": c["iso_id"], "want_ids": sorted(want)[:4]})
-                    return
                 # entries that differ only in how their uploader described the material are interchangeable
-                free = [x for x in ks if x not in seen]
+                free = [x for x in by_loose.get(c["loose"], []) if x not in seen]
                 if not free:
-                    self.fail("retrieved-duplicate", f"op={opdesc} where={where}", {"iso_id": c["iso_id"]})
+                    rest = {x: e for x, e in want.items() if x not in seen}
+                    if not rest:
+                        self.fail("retrieved-keys-differ", "table=isotherms missing=False extra=True",
+                                  {"op": opdesc, "where": where, "got_id": c["iso_id"]})
+                    else:
+                        self.fail("retrieved-differs", "table=isotherms " + self._iso_diff_sig(c, rest),
+                                  {"op": opdesc, "where": where, "got_id": c["iso_id"], "want_ids": sorted(rest)[:4]})
                     return
                 k = c["iso_id"] if c["iso_id"] in free else free[0]
                 seen.add(k)
@@ -640,17 +641,18 @@ class Run:
                 # the material is a keyed item of the same file: its properties are the file's entry
                 file_mat = fm.mats.get(e["mname"])
                 if file_mat is not None and dg.diff(c["mat"], file_mat) is not None:
-                    self.fail("retrieved-differs", f"op={opdesc} where={where} field=material-properties "
-                              f"restarted={self._restarted(op)}", {"got": c["mat"], "file": file_mat})
+                    self.fail("retrieved-differs", "table=isotherms field=material-properties",
+                              {"op": opdesc, "where": where, "restarted": self._restarted(op), "got": c["mat"], "file": file_mat})
                     return
                 if fm.consistent(k):
                     self.count("probe:id-equality-checked")
                     if c["iso_id"] != k:
-                        self.fail("retrieved-differs", f"op={opdesc} where={where} field=iso_id", {"got": c["iso_id"], "want": k})
+                        self.fail("retrieved-differs", "table=isotherms field=iso_id",
+                                  {"op": opdesc, "where": where, "got": c["iso_id"], "want": k})
                         return
             if len(seen) != len(want):
-                self.fail("retrieved-keys-differ", f"op={opdesc} where={where} table=isotherms missing=True extra=False",
-                          {"missing": sorted(set(want) - seen)[:4]})
+                self.fail("retrieved-keys-differ", "table=isotherms missing=True extra=False",
+                          {"op": opdesc, "where": where, "missing": sorted(set(want) - seen)[:4]})
 
     def _restarted(self, op):
         return self.restarts.get(op.get("session"), 0) > 0
